@@ -421,6 +421,7 @@ func runC20(c *kit.Ctx) {
 	runC20Locks(c, k)
 	runC20Alias(c, k)
 	runC20Reply(c, k)
+	runC20Retain(c, k, loop, outside, loopWrites, tStruct)
 }
 
 // mutexFlow: fact "mutex field m is held" (Lock/RLock gen, Unlock/RUnlock
